@@ -1041,7 +1041,40 @@ def r14_recursive_walkers_are_total(ctx):
     ctx.floor('C17.R14', 'recursive single-operand walkers over Type', n, 8)
 
 
+def r15_scalar_spellings(ctx):
+    ctx.rule('C17.R15', 'P9 table against the language: a `ScalarPrimitive` renders as the Rust keyword of its variant — `ScalarPrimitive::as_str` maps every '
+             'variant V to the lower-cased name of V (`I32` -> "i32", `Isize` -> "isize", `Bool` -> "bool" ..), which is what every renderer writes into '
+             'generated code and what `syn` must parse back to the same type. The reader (`TryFrom<&str>`) agreeing with the writer is not enough: two '
+             'index-aligned tables that are shifted against each other still round-trip through each other while `I32` is rendered as `i64`. When '
+             'the mapping is not a `match` the rule can read (a table lookup), it says so instead of passing.')
+    b = ctx.fb.body(CR, 'rustdoc_ir::scalar_primitive::ScalarPrimitive::as_str')
+    if not ctx.need('C17.R15', 'ScalarPrimitive::as_str', b):
+        return
+    sws = list(enum_switches(b, 'rustdoc_ir::scalar_primitive::ScalarPrimitive'))
+    if not ctx.need('C17.R15', 'match on the variant in ScalarPrimitive::as_str (a table lookup cannot be read)', sws):
+        return
+    from ..tables import variant_table
+    from ..flow import promoted_strs
+    vt = variant_table(b, sws[0][0])
+    n = 0
+    for var, f in sorted(vt.items()):
+        strs = [x for x in f['strs']]
+        for _, _, st in [(0, 0, s_) for bb_ in f['blocks'] for s_ in b.stmts(bb_)]:
+            rv = st.get('rv')
+            if rv:
+                for o in rv_operands(rv)[0]:
+                    if isinstance(o, dict) and o.get('promoted') is not None:
+                        strs += [x for x in promoted_strs(ctx.fb, b, int(o['promoted'])) if not x.startswith('const:')]
+        strs = sorted(set(strs))
+        if f['unreachable'] and not strs:
+            continue
+        n += 1
+        ctx.ob('C17.R15', 'spelling|%s' % var, strs == [var.lower()], b.loc(sws[0][0]), 'ScalarPrimitive::%s is written as %s (the keyword is `%s`)' % (var, strs, var.lower()))
+    ctx.floor('C17.R15', 'scalar primitives with a spelling', n, 15)
+
+
 def check(ctx):
+    r15_scalar_spellings(ctx)
     r14_recursive_walkers_are_total(ctx)
     r13_template_roles_and_relation(ctx)
     r12_both_operands_are_keys(ctx)
